@@ -532,6 +532,8 @@ class World(object):
             if running:
                 running.crash()
         except Exception as e:
+            if os.environ.get("VERIF_TB"):
+                import traceback; traceback.print_exc()
             self.escaped.append((self.step_no, label, "%s: %s" % (type(e).__name__, e)))
             b.log("escaped_exception", error="%s: %s" % (type(e).__name__, e), site=None)
         b.crash_after_ops = None
